@@ -352,8 +352,18 @@ class PrettyPrinter:
     def is_expression(self, option):
         return "description" in option and (option["description"] == "expression")
 
+    def unwrap_all_of(self, props):
+        """
+        A schema can be wrapped in a single-item allOf (used to attach version
+        metadata to a $ref) - in this case use the referenced schema
+        """
+        while "allOf" in props and len(props["allOf"]) == 1:
+            props = props["allOf"][0]
+        return props
+
     def check_options_list(self, options_list, value):
         for option in options_list:
+            option = self.unwrap_all_of(option)
             if "enum" in option and value.lower() in option["enum"]:
                 if value.lower() == "end":
                     # in GEOTRANSFORM "end" is an attribute value
@@ -373,6 +383,8 @@ class PrettyPrinter:
         """
         TODO - refactor and add more specific tests (particularly for expressions)
         """
+        attr_props = self.unwrap_all_of(attr_props)
+
         if isinstance(value, bool):
             return str(value).upper()
 
